@@ -35,7 +35,19 @@ SIG_OPT_REDUCTION = "optimize:full-reduction-axiserror"
 SIG_FROM_GRAPH = "from_graph:missing-output-block"
 SIG_DANGLING = "mixed-compute:dangling-leaf-key"
 SIG_OPT_RAW = "optimize:raw-unlowered-graph"
-OWN_KNOWN = (SIG_OPT_REDUCTION, SIG_FROM_GRAPH, SIG_DANGLING, SIG_OPT_RAW)
+SIG_RESHAPE = "reshape-int-slice-pushdown"
+OWN_KNOWN = (SIG_OPT_REDUCTION, SIG_FROM_GRAPH, SIG_DANGLING, SIG_OPT_RAW, SIG_RESHAPE)
+
+
+def classify_reshape(prog, msg):
+    """`x.reshape(n, 1)[i]`-style programs: pushing an integer index through Reshape raises
+    IndexError('tuple index out of range') in `reshape_rechunk` under optimization (fine with optimize-graph=False)."""
+    if prog and "IndexError: tuple index out of range" in msg:
+        anc = programs.prog_ancestry(prog)
+        for st in prog:
+            if st["op"] == "getitem" and any(isinstance(i, int) for i in st["index"]) and "reshape" in anc.get(st["args"][0], ()):
+                return SIG_RESHAPE
+    return None
 
 
 # ------------------------------------------------------------------------ hand-shaped cases
@@ -334,7 +346,7 @@ def classify(case, x, y, entry, exc):
     except Exception:
         pass
     if case.get("prog"):
-        k = programs.classify_known(case["prog"], msg)
+        k = programs.classify_known(case["prog"], msg) or classify_reshape(case["prog"], msg)
         if k:
             return k
     return None
@@ -504,6 +516,26 @@ def check_case(ctx, case, count=True, entries=None):
                 if count:
                     ctx.count((entry, "raises", sig))
                 if entry == "x.compute":
+                    if sig.startswith("x.compute:raises"):
+                        # x.compute() itself raises with an undocumented exception: a C01 / C08 matter unless the
+                        # entry points DISAGREE about it (another one hands back the NumPy value)
+                        fails.pop()
+                        ok_elsewhere = []
+                        for other in ENTRIES[1:]:
+                            try:
+                                g2, _, _ = run_entry(other, x, y, sched)
+                                if want is not None and same(g2, want):
+                                    ok_elsewhere.append(other)
+                            except Exception:
+                                pass
+                        if ok_elsewhere:
+                            fails.append({"sig": f"entry-points-disagree:x.compute-raises:{type(e).__name__}", "entry": ok_elsewhere[0],
+                                          "detail": f"x.compute() raised {type(e).__name__}: {str(e)[:200]} but {ok_elsewhere} return the NumPy value"})
+                        elif count:
+                            ctx.notes["all_entry_points_raise"] = ctx.notes.get("all_entry_points_raise", 0) + 1
+                            lst = ctx.extra.setdefault("all_entry_points_raise_samples", [])
+                            if len(lst) < 3:
+                                lst.append({"case": {k: case[k] for k in ("kind", "prog", "name") if k in case}, "error": f"{type(e).__name__}: {str(e)[:200]}"})
                     return fails  # nothing to compare against
                 continue
             if ref is None:
@@ -647,10 +679,8 @@ def lookup_requests(x, layer, keys, chunks, name):
                 gone = [k for k in layer if isinstance(k, tuple) and tuple(k[1:]) == bid and k not in out]
                 res.append(f"{sb}>D{_enc_key(names, gone[0])}" if gone else f"{sb}>P")
         impl = "ok " + ";".join(res)
-    except ValueError:
-        impl = "err ValueError"
-    except KeyError:
-        impl = "err KeyError"
+    except Exception as e:  # ValueError is the documented refusal; anything else is reported as its class
+        impl = "err " + type(e).__name__
     return req, impl
 
 
@@ -667,8 +697,17 @@ def correspondence(ctx):
     captured = []
     orig = C.from_graph
 
+    current = {}
+
     def spy(layer, meta, chunks, keys, name, *a, **k):
         captured.append((dict(layer), tuple(chunks), list(keys), name))
+        # model: `rebuild c layer` passes (c.chunks, [], c.rawName)
+        ctx.traces += 1
+        x0 = current.get("x")
+        if x0 is not None and (name != x0.name or list(keys) != [] or not chunks_equal(tuple(chunks), x0.chunks)):
+            if len(ctx.disagreements) < 50:
+                ctx.disagree("postpersist-rebuild-args", f"__dask_postpersist__ of {x0.name}", f"name={x0.name} keys=[] chunks={x0.chunks}",
+                             f"name={name} keys={list(keys)[:2]} chunks={tuple(chunks)}")
         return orig(layer, meta, chunks, keys, name, *a, **k)
 
     C.from_graph = spy
@@ -679,6 +718,7 @@ def correspondence(ctx):
                 x = programs.run_da(prog)[prog[-1]["out"]]
                 if any(math.isnan(s) for c in x.chunks for s in c):
                     continue
+                current["x"] = x
                 for f in (lambda: x.persist(scheduler="sync"), lambda: dask.persist(x, scheduler="sync"), lambda: dask.optimize(x)):
                     try:
                         with warnings.catch_warnings():
@@ -764,7 +804,10 @@ def premise_monitor(ctx, x):
 
 
 def run(ctx, replay=None):
+    import time
+
     rng = ctx.rng
+    t_run = time.time()
     ctx.rule = (
         "seeded random array programs (harness.programs, depth 2-6, outside the documented defect families) plus "
         f"{len(HAND_NAMES)} hand-shaped collections (0-d results, reductions, unknown chunks, seeded random arrays, from_delayed/"
@@ -809,7 +852,7 @@ def run(ctx, replay=None):
                 report(ctx, case, fails)
     ctx.sample({"hand": list(HAND_NAMES)})
     for it in range(n):
-        if ctx.elapsed() > budget:
+        if time.time() - t_run > budget:
             ctx.notes["stopped_early_at"] = it
             break
         depth = rng.randint(2, 6)
